@@ -90,7 +90,7 @@ fn check(c: &Xc) -> CaseResult {
     let ida = expand_bytes(c.id_seed, c.ida_len);
     let idb = if c.same_id { ida.clone() } else { expand_bytes(c.id_seed ^ 0xb0b, c.idb_len) };
     let (h_a, h_b) = (r9::h1(&ida, 0x02), r9::h1(&idb, 0x02));
-    let mut ke = match c.ke_rel {
+    let mut ke = match c.ke_rel & 0x0f {
         1 => h_b.clone(),
         2 => h_a.clone(),
         3 => (&h_b * 2u32) % n,
@@ -104,15 +104,21 @@ fn check(c: &Xc) -> CaseResult {
         ke = BigUint::one();
     }
     let m = master(&ke);
+    // Ppub-e handed to the library in the representation selected by the high nibble of ke_rel (0 affine, 1 as computed by Point::g_mul, 2 Z = 2, 3 random Z, 4 Z with Montgomery limbs [1,0,0,0])
+    let libm = {
+        let mut l = m.lib;
+        l.ppube = g1_in_rep(&m.ppube, Some(&m.ke), c.ke_rel >> 4, c.id_seed);
+        l
+    };
     let (ra, rb) = (from_be(&c.ra) % (n - 2u32) + 1u32, from_be(&c.rb) % (n - 2u32) + 1u32);
     let (Some(dea_ref), Some(deb_ref)) = (r9::exch_key(&ke, &ida), r9::exch_key(&ke, &idb)) else { return pass(false, "extraction-undefined") };
-    let key_a = catch(|| m.lib.extract_exch_key(&ida)).map_err(|p| Fail { key: "entry=Sm9EncMasterKey::extract_exch_key outcome=panic".into(), detail: p })?.ok_or_else(|| Fail { key: "entry=Sm9EncMasterKey::extract_exch_key input=valid outcome=none".into(), detail: "".into() })?;
-    let key_b = catch(|| m.lib.extract_exch_key(&idb)).map_err(|p| Fail { key: "entry=Sm9EncMasterKey::extract_exch_key outcome=panic".into(), detail: p })?.ok_or_else(|| Fail { key: "entry=Sm9EncMasterKey::extract_exch_key input=valid outcome=none".into(), detail: "".into() })?;
+    let key_a = catch(|| libm.extract_exch_key(&ida)).map_err(|p| Fail { key: "entry=Sm9EncMasterKey::extract_exch_key outcome=panic".into(), detail: p })?.ok_or_else(|| Fail { key: "entry=Sm9EncMasterKey::extract_exch_key input=valid outcome=none".into(), detail: "".into() })?;
+    let key_b = catch(|| libm.extract_exch_key(&idb)).map_err(|p| Fail { key: "entry=Sm9EncMasterKey::extract_exch_key outcome=panic".into(), detail: p })?.ok_or_else(|| Fail { key: "entry=Sm9EncMasterKey::extract_exch_key input=valid outcome=none".into(), detail: "".into() })?;
     let tampered = c.t_ra.is_some() || c.t_rb.is_some();
 
     // A1-A3
     let ra2 = from_be(&expand_bytes(c.id_seed ^ 0x1701, 32)) % (n - 2u32) + 1u32;
-    let (res, left) = with_sm9_candidates(vec![to32(&ra), to32(&ra2)], || exch_step_1a(&m.lib, &idb));
+    let (res, left) = with_sm9_candidates(vec![to32(&ra), to32(&ra2)], || exch_step_1a(&libm, &idb));
     let (ra_lib, ra_scalar) = res.map_err(|p| Fail { key: "entry=exch_step_1a outcome=panic".into(), detail: p })?;
     let ra_used = if left == 1 { ra.clone() } else { ra2 };
     ensure!(from_limbs(&ra_scalar) == ra_used, "entry=exch_step_1a outcome=wrong-scalar", "returned rA {:x}, injected {:x}", from_limbs(&ra_scalar), ra_used);
@@ -122,7 +128,7 @@ fn check(c: &Xc) -> CaseResult {
     let (ra_seen_ref, ra_seen_lib, ra_altered) = tamper(&ra_ref, &ra_lib, &c.t_ra);
     // B1-B7
     let rb2 = from_be(&expand_bytes(c.id_seed ^ 0x1702, 32)) % (n - 2u32) + 1u32;
-    let (res, left) = with_sm9_candidates(vec![to32(&rb), to32(&rb2)], || exch_step_1b(&m.lib, &ida, &idb, &key_b, &ra_seen_lib, c.klen));
+    let (res, left) = with_sm9_candidates(vec![to32(&rb), to32(&rb2)], || exch_step_1b(&libm, &ida, &idb, &key_b, &ra_seen_lib, c.klen));
     let r1b = res.map_err(|p| Fail { key: format!("entry=exch_step_1b input={} outcome=panic", if ra_seen_ref.is_some() { "on-curve-R_A" } else { "off-curve-R_A" }), detail: p })?;
     let rb_used = if left == 1 { rb.clone() } else { rb2 };
     let (rb_lib, skb) = match (r1b, &ra_seen_ref) {
@@ -139,7 +145,7 @@ fn check(c: &Xc) -> CaseResult {
     // in transit to A
     let (rb_seen_ref, rb_seen_lib, rb_altered) = tamper(&rb_ref, &rb_lib, &c.t_rb);
     // A5-A8
-    let r2a = outcome(|| exch_step_2a(&m.lib, &ida, &idb, &key_a, ra_scalar, &ra_lib, &rb_seen_lib, c.klen));
+    let r2a = outcome(|| exch_step_2a(&libm, &ida, &idb, &key_a, ra_scalar, &ra_lib, &rb_seen_lib, c.klen));
     let ska = match (&r2a, &rb_seen_ref) {
         (Outcome::Panic(p), _) => return fail(format!("entry=exch_step_2a input={} outcome=panic", if rb_seen_ref.is_some() { "on-curve-R_B" } else { "off-curve-R_B" }), p.clone()),
         (Outcome::Err(_), None) => return pass(true, "offcurve-R_B-rejected"),
@@ -179,14 +185,14 @@ fn xc(tampered: bool) -> impl Strategy<Value = Xc> {
         (rt(), rt()),
     )
         .prop_map(move |(ke, (ida_len, idb_len, id_seed, same_id), klen, (ra, rb), (t_ra, t_rb))| Xc {
-            ke, ke_rel: 0, ida_len, idb_len, id_seed, same_id, klen: if tampered { klen.max(16) } else { klen }, ra, rb,
+            ke, ke_rel: ((id_seed % 5) as u8) << 4, ida_len, idb_len, id_seed, same_id, klen: if tampered { klen.max(16) } else { klen }, ra, rb,
             t_ra: if tampered { t_ra } else { None }, t_rb: if tampered { t_rb } else { None },
         })
 }
 
 pub fn run(ctx: &Ctx) {
     ctx.set_rule(
-        "a case is a history (ke incl. master keys equal or related to H1(ID||02) of either party, ID_A, ID_B incl. equal and empty, klen 1..=128, rA, rB injected through the RNG hook, optional alteration of R_A / R_B in transit: another valid point (random, or a boundary point of G1), -R, an off-curve point, a bit flip of x||y, \
+        "a case is a history (ke — with Ppub-e handed over affine, as computed by g_mul, or in other Jacobian representations — incl. master keys equal or related to H1(ID||02) of either party, ID_A, ID_B incl. equal and empty, klen 1..=128, rA, rB injected through the RNG hook, optional alteration of R_A / R_B in transit: another valid point (random, or a boundary point of G1), -R, an off-curve point, a bit flip of x||y, \
          or the same point in another Jacobian representation, which is not an alteration). Oracle: GM/T 0044.3 on the reference (three pairings per side): R_A, R_B, SK_B and SK_A compared exactly with what each side must derive from what it saw; \
          honest histories: SK_A == SK_B of length klen; an R that is not on the curve must be rejected; an altered valid R must make the keys differ (asserted for klen >= 16 only). Non-trivial: every history (each contains exact comparisons).",
     );
@@ -211,7 +217,7 @@ pub fn run(ctx: &Ctx) {
 
     ctx.generated("honest_histories", "proptest honest exchanges: exact R_A, R_B, SK_B, SK_A, equality, length", ctx.tier.pick(220, 5_000), || xc(false), check);
     ctx.exhaustive("klen_1_128", "every klen 1..=128 on one key pair / identity pair", || {
-        (1..=128usize).map(|klen| Xc { ke: gen::hex32(&BigUint::from(0x0bad_c0de_1234_5677u64)), ke_rel: 0, ida_len: 5, idb_len: 3, id_seed: 17, same_id: false, klen, ra: Hex(expand_bytes(klen as u64, 32)), rb: Hex(expand_bytes(klen as u64 ^ 0xbb, 32)), t_ra: None, t_rb: None }).collect()
+        (1..=128usize).map(|klen| Xc { ke: gen::hex32(&BigUint::from(0x0bad_c0de_1234_5677u64)), ke_rel: ((klen % 5) as u8) << 4, ida_len: 5, idb_len: 3, id_seed: 17, same_id: false, klen, ra: Hex(expand_bytes(klen as u64, 32)), rb: Hex(expand_bytes(klen as u64 ^ 0xbb, 32)), t_ra: None, t_rb: None }).collect()
     }, check);
     ctx.listed("related_master_key_sequences", "complete exchanges under ke, N-ke, ke, ke+1, N-ke on one thread inside one case: anything the library remembers between calls (memoised pairing values keyed by a master public key) is carried over", || {
         (0..2u64).map(|i| {
@@ -229,8 +235,24 @@ pub fn run(ctx: &Ctx) {
         let mut v = Vec::new();
         for i in 0..nrel {
             for rel in 1..=5u8 {
-                v.push(Xc { ke: gen::hex32(&BigUint::one()), ke_rel: rel, ida_len: 1 + (i as usize % 9), idb_len: 1 + (i as usize * 3 % 11), id_seed: 0x1717 + i, same_id: false, klen: 16 + (i as usize % 20), ra: Hex(expand_bytes(i ^ 0xa1, 32)), rb: Hex(expand_bytes(i ^ 0xb1, 32)), t_ra: None, t_rb: None });
+                v.push(Xc { ke: gen::hex32(&BigUint::one()), ke_rel: rel | ((i % 5) as u8) << 4, ida_len: 1 + (i as usize % 9), idb_len: 1 + (i as usize * 3 % 11), id_seed: 0x1717 + i, same_id: false, klen: 16 + (i as usize % 20), ra: Hex(expand_bytes(i ^ 0xa1, 32)), rb: Hex(expand_bytes(i ^ 0xb1, 32)), t_ra: None, t_rb: None });
             }
+        }
+        v
+    }, check);
+
+    let zl_step = ctx.tier.pick(8usize, 1usize);
+    ctx.listed("ephemeral_scalars_with_zero_limbs", "rA (resp. rB) with an all-zero 64-bit limb below a non-zero limb (every 8th pattern in the quick tier): exact R, SK_A, SK_B", move || {
+        let n = &r9::params().n;
+        let mut v = Vec::new();
+        for (i, k) in gen::zero_limb_scalars().into_iter().enumerate() {
+            if i % zl_step != 0 || &k >= &(n - 1u32) || k <= BigUint::one() {
+                continue;
+            }
+            // Xc::ra holds v with rA = v mod (N-2) + 1
+            let enc = gen::hex32(&(&k - 1u32));
+            let other = Hex(expand_bytes(i as u64 ^ 0x17a, 32));
+            v.push(Xc { ke: gen::hex32(&BigUint::from(0x0bad_c0de_1234_5677u64)), ke_rel: ((i % 5) as u8) << 4, ida_len: 5, idb_len: 3, id_seed: 17, same_id: false, klen: 16, ra: if i % 2 == 0 { enc.clone() } else { other.clone() }, rb: if i % 2 == 0 { other } else { enc }, t_ra: None, t_rb: None });
         }
         v
     }, check);
